@@ -13,6 +13,11 @@ mod upgrade;
 use common::Tier;
 
 fn main() {
+    let args: Vec<String> = std::env::args().collect();
+    if args.len() >= 5 && args[1] == "crash-child" {
+        // C09: the process that gets killed
+        std::process::exit(props::c09::child(&args[2], &args[3], args[4].parse().unwrap_or(-1)));
+    }
     common::install_panic_hook();
     common::sweep_stale_scratch();
     // anonymous build scratch files go to the tmpfs too (C10 sets its own temp directories)
@@ -22,7 +27,6 @@ fn main() {
             std::env::set_var("TMPDIR", &t);
         }
     }
-    let args: Vec<String> = std::env::args().collect();
     if args.len() < 2 {
         eprintln!("usage: verif <C01..C20> [--tier quick|thorough] | verif replay <file>");
         std::process::exit(2);
